@@ -165,8 +165,8 @@ package ops
 //@   loop 1 invariant (forall k :: axis < k && k < rank(A) ==> dim(A, k) == dim(B0, k)) ==> B == B0
 
 //@ func UnidirectionalBroadcast
-//@   tags C14,C02
-//@   requires A != nil && B != nil
+//@   tags C14,C02,C03
+//@   scope operands_present: A != nil && B != nil
 //@   scope extents_positive: dims_positive(A) && dims_positive(B)
 //@   ensures compatible_iff_ok: (err == nil) <==> (rank(B) <= rank(A) &&
 //@          (forall k :: 0 <= k && k < rank(A) ==> adim(B, rank(A), k) == dim(A, k) || adim(B, rank(A), k) == 1))
@@ -343,3 +343,20 @@ package ops
 //@   loop 2 invariant len(res) == $i && (res == nil || fresh(res)) && (forall k :: 0 <= k && k < $i ==> res[k] == $range[k])
 //@   loop 3 invariant len(res) == $i && (res == nil || fresh(res)) && (forall k :: 0 <= k && k < $i ==> res[k] == $range[k])
 //@   loop 4 invariant len(res) == $i && (res == nil || fresh(res)) && (forall k :: 0 <= k && k < $i ==> res[k] == $range[k])
+
+// ---------------------------------------------------------------------------------------
+// C02: frame contracts of helpers (what they may write; results that are new objects)
+
+//@ func PairwiseAssign
+//@   tags C02
+//@   modifies cont(t1)
+
+//@ func Tanh
+//@   tags C02
+//@   ensures new_result: err == nil ==> result != nil && fresh(result)
+//@ func Sigmoid
+//@   tags C02
+//@   ensures new_result: err == nil ==> result != nil && fresh(result)
+//@ func ReLU
+//@   tags C02
+//@   ensures new_result: err == nil ==> result != nil && fresh(result)
